@@ -33,14 +33,17 @@ func partialSyncResize(r *vkit.R) {
 		holder   bool
 	}
 	var list []kase
-	for _, f := range []string{"serving-keypair-garbage", "client-ca-garbage", "endpoint-unusable", "cluster-delete-recreate"} {
+	// "cluster-recreate-events-coalesced": the object is deleted and created again (generation 1 again, new uid, other limit)
+	// and the controller only gets to the events when the lister already holds the new object, so it syncs the EXISTING
+	// cluster info with the new incarnation.
+	for _, f := range []string{"serving-keypair-garbage", "client-ca-garbage", "endpoint-unusable", "cluster-delete-recreate", "cluster-recreate-events-coalesced"} {
 		for _, ctrl := range []bool{false, true} {
-			if !ctrl && (f == "endpoint-unusable" || f == "cluster-delete-recreate") {
+			if !ctrl && (f == "endpoint-unusable" || f == "cluster-delete-recreate" || f == "cluster-recreate-events-coalesced") {
 				continue
 			}
 			for _, m := range [][2]int32{{3, 1}, {1, 3}, {2, 0}} {
 				for _, holder := range []bool{false, true} {
-					if holder && (f == "cluster-delete-recreate" || m[1] == 0) {
+					if holder && (f == "cluster-delete-recreate" || f == "cluster-recreate-events-coalesced" || m[1] == 0) {
 						continue
 					}
 					list = append(list, kase{fault: f, ctrl: ctrl, from: m[0], to: m[1], holder: holder})
@@ -61,7 +64,7 @@ func partialSyncResize(r *vkit.R) {
 		if k.ctrl {
 			via = "controller (lister update + sync handler)"
 			apply = func(o *proxyv1alpha1.UpstreamCluster) error {
-				sr := gw.Apply(o)
+				sr := gw.Apply(stamps.stamp(o))
 				switch {
 				case sr.Panic != nil:
 					return fmt.Errorf("panic: %v", sr.Panic)
@@ -71,7 +74,7 @@ func partialSyncResize(r *vkit.R) {
 				return sr.Err
 			}
 			ciOf = func() *clusters.ClusterInfo { ci, _ := gw.Cluster(name); return ci }
-			defer gw.Delete(name)
+			defer func() { stamps.forget(name); gw.Delete(name) }()
 		} else {
 			ci := clusters.NewEmptyClusterInfo(name, nil, nil, "", nil)
 			apply = func(o *proxyv1alpha1.UpstreamCluster) (err error) {
@@ -122,10 +125,25 @@ func partialSyncResize(r *vkit.R) {
 		case "endpoint-unusable":
 			o.Spec.Servers = append(o.Spec.Servers, proxyv1alpha1.UpstreamClusterServer{Endpoint: "http://[::1"})
 		case "cluster-delete-recreate":
+			stamps.forget(name)
 			gw.Delete(name)
 		}
-		err := apply(o)
-		if k.fault == "cluster-delete-recreate" {
+		var err error
+		if k.fault == "cluster-recreate-events-coalesced" {
+			old := gw.RemoveFromLister(name)
+			stamps.forget(name)
+			nw := gw.SetLister(stamps.stamp(o))
+			trace = append(trace, fmt.Sprintf("object deleted and created again (generation %d -> %d, new uid) before the controller handled either event", old.Generation, nw.Generation))
+			for _, ev := range []*proxyv1alpha1.UpstreamCluster{old, nw} {
+				if sr := gw.Deliver(ev); sr.Err != nil || sr.Panic != nil || sr.Requeue {
+					err = fmt.Errorf("delivery failed: %+v", sr)
+				}
+			}
+			r.Count("partial_sync_recreate_same_generation", b2i(old.Generation == nw.Generation))
+		} else {
+			err = apply(o)
+		}
+		if k.fault == "cluster-delete-recreate" || k.fault == "cluster-recreate-events-coalesced" {
 			if err != nil {
 				r.Inconclusive(fmt.Sprintf("re-creating the cluster failed: %v", err))
 				return
@@ -164,4 +182,11 @@ func partialSyncResize(r *vkit.R) {
 		r.Count("partial_sync_cases_"+k.fault, 1)
 		r.Distinct(vkit.Hash64("c05partial", fmt.Sprintf("%+v", k)))
 	})
+}
+
+func b2i(b bool) int {
+	if b {
+		return 1
+	}
+	return 0
 }
